@@ -70,7 +70,63 @@ def one_run(prop, verif_seed, index, tier, plan=None, choices=None):
 
 
 # ------------------------------------------------------------------ workers
+def run_forked(fn, *args, timeout=3600):
+    """Run fn(*args) in a forked child whose module state is the parent's (pristine: the parent never executes plans).
+    Process-global state a run leaves behind (module-level caches, class attributes) therefore never leaks from one
+    chunk / minimisation / self-test into another, and a run's history is exactly the runs before it in its own chunk."""
+    import pickle
+    import select
+    import signal
+
+    r, w = os.pipe()
+    sys.stdout.flush()
+    sys.stderr.flush()
+    pid = os.fork()
+    if pid == 0:
+        code = 0
+        try:
+            os.close(r)
+            try:
+                data = pickle.dumps(("ok", fn(*args)))
+            except BaseException as e:  # noqa
+                data = pickle.dumps(("err", repr(e) + "\n" + traceback.format_exc()[-3000:]))
+                code = 3
+            with os.fdopen(w, "wb") as f:
+                f.write(data)
+        finally:
+            os._exit(code)
+    os.close(w)
+    chunks = []
+    t0 = time.time()
+    try:
+        while True:
+            left = timeout - (time.time() - t0)
+            if left <= 0:
+                os.kill(pid, signal.SIGKILL)
+                os.waitpid(pid, 0)
+                raise RuntimeError("forked child timed out")
+            rd, _, _ = select.select([r], [], [], min(left, 5.0))
+            if rd:
+                b = os.read(r, 1 << 20)
+                if not b:
+                    break
+                chunks.append(b)
+    finally:
+        os.close(r)
+    os.waitpid(pid, 0)
+    if not chunks:
+        raise RuntimeError("forked child died without a result (watchdog / crash)")
+    kind, val = pickle.loads(b"".join(chunks))
+    if kind == "err":
+        raise RuntimeError("forked child failed: " + val)
+    return val
+
+
 def _chunk(args):
+    return run_forked(_chunk_body, args)
+
+
+def _chunk_body(args):
     prop_id, verif_seed, tier, start, count, watchdog = args
     from simcore import shims
 
@@ -135,6 +191,7 @@ def _chunk(args):
                     "detail": v["detail"][:2000],
                     "digest": res.get("digest"),
                     "n_viol": len(res["violations"]),
+                    "chunk_start": start,
                 }
             )
         if len(agg["samples"]) < 1:
@@ -256,6 +313,10 @@ def replay_file(path):
     shims.setup()
     rep = json.load(open(path))
     prop = load_prop(rep["property"])
+    for h in rep.get("history", []):
+        # earlier runs of the same process: the violation needs the state they leave behind
+        seed_everything(h["plan"].get("seed", 0))
+        prop.execute(h["plan"], h.get("choices"))
     seed_everything(rep["plan"].get("seed", 0))
     res = prop.execute(rep["plan"], rep.get("choices"))
     if not res["violations"]:
@@ -359,6 +420,56 @@ def minimise(prop, v, budget_s):
         "digest": best.get("digest"),
         "tried": tried,
     }
+
+
+def _exec_sequence(prop_id, seq, sig):
+    """Execute a list of (plan, choices) in order in THIS process; result of the last one if it violates with `sig`."""
+    prop = load_prop(prop_id)
+    r = None
+    for plan, ch in seq:
+        seed_everything(plan.get("seed", 0))
+        r = prop.execute(plan, ch)
+    if r and r["violations"] and r["violations"][0]["sig"] == sig:
+        return {"kind": r["violations"][0]["kind"], "detail": r["violations"][0]["detail"], "digest": r.get("digest"), "choices": r.get("choices", [])}
+    return None
+
+
+def minimise_history(prop, v, verif_seed, tier, budget_s):
+    """The violation does not recur when its run is executed alone: it depends on state left by earlier runs of the same
+    process. Rebuild the chunk's prefix from the seeds, confirm in a pristine forked child, then delta-debug the prefix."""
+    t0 = time.time()
+    sig = v["sig"]
+    hist = []
+    for i in range(v.get("chunk_start", v["index"]), v["index"]):
+        seed = run_seed(verif_seed, prop.ID, i)
+        plan = prop.gen_plan(random.Random(seed), i, tier)
+        plan["seed"] = seed
+        hist.append((plan, None))
+    last = (v["plan"], v["choices"] or None)
+    tried = 1
+    if run_forked(_exec_sequence, prop.ID, hist + [last], sig) is None:
+        return None
+    n = max(len(hist) // 2, 1)
+    while hist and n >= 1 and time.time() - t0 < budget_s:
+        changed = False
+        i = 0
+        while i < len(hist) and time.time() - t0 < budget_s:
+            cand = hist[:i] + hist[i + n:]
+            tried += 1
+            if run_forked(_exec_sequence, prop.ID, cand + [last], sig) is not None:
+                hist = cand
+                changed = True
+            else:
+                i += n
+        if not changed:
+            if n == 1:
+                break
+            n = max(n // 2, 1)
+    fin = run_forked(_exec_sequence, prop.ID, hist + [last], sig)
+    if fin is None:
+        return None
+    return {"plan": v["plan"], "choices": fin["choices"], "kind": fin["kind"], "sig": sig, "detail": fin["detail"], "digest": fin["digest"], "tried": tried,
+            "history": [{"plan": p, "choices": c} for p, c in hist]}
 
 
 # ------------------------------------------------------------ known findings
@@ -485,9 +596,7 @@ def check(prop_id, tier, verif_seed):
     print(f"[{prop_id}] tier={tier} VERIF_SEED={verif_seed} repo={shims.REPO} runs<={cfg['runs']} cap={cfg['time_cap_s']}s workers={NWORKERS}")
     sys.stdout.flush()
 
-    ok, why, n_det = determinism_selftest(
-        prop, verif_seed, tier, cfg.get("det_inproc", 8), cfg.get("det_fresh", 4)
-    )
+    ok, why, n_det = run_forked(determinism_selftest, prop, verif_seed, tier, cfg.get("det_inproc", 8), cfg.get("det_fresh", 4))
     if not ok:
         print(f"HARNESS-ERROR nondeterministic: {why}")
         return 2
@@ -528,7 +637,12 @@ def check(prop_id, tier, verif_seed):
             continue
         if len(reported) >= cfg.get("max_reports", 4):
             continue
-        m = minimise(prop, v, cfg.get("minimise_s", 60))
+        m = run_forked(minimise, prop, v, cfg.get("minimise_s", 60))
+        if m is None:
+            # not reproducible alone: does it need the runs that came before it in its process?
+            m = minimise_history(prop, v, verif_seed, tier, cfg.get("minimise_s", 60))
+            if m is not None:
+                print(f"[{prop_id}] violation {sig} depends on state left behind by {len(m['history'])} earlier run(s) of the same process (process-global state)")
         if m is None:
             print(f"HARNESS-ERROR nondeterministic: violation {sig} at index {v['index']} did not recur when re-executed")
             return 2
@@ -544,6 +658,7 @@ def check(prop_id, tier, verif_seed):
             "sig": m["sig"],
             "detail": m["detail"],
             "digest": m["digest"],
+            "history": m.get("history", []),
             "original_plan": v["plan"],
             "runs_with_this_sig": len(vs),
             "minimiser_executions": m["tried"],
